@@ -3,10 +3,13 @@
 
   Proved here (all canonical MOCs, all queries): point membership, range containment, range overlap,
   MOC overlap, subset test, list of overlapped ranges (total, incl. empty operands).
-  The floating-point outputs (fractions, percentage, weighted sums) are modelled as exact integer
-  pairs and tied by the correspondence check only (`…` listed as partial in DESIGN.md).
+  Measures: `range_sum` = number of covered indices; the integer pair `range_fraction` divides is
+  determined by the number of covered indices of the query (0 and 1 exactly for uncovered / fully
+  covered queries); cell count × cell size = covered indices.  The final `f64` division and the
+  multi-order-map weighted sum are compared bit-for-bit by the correspondence (not modelled in Lean).
 -/
 import MocVerif.Lemmas.Query
+import MocVerif.Lemmas.Measure
 
 namespace Moc.C03
 
@@ -48,6 +51,51 @@ theorem empty_moc_answers (x : Nat) (r : Rng) (b : List Rng) :
   refine ⟨rfl, rfl, rfl, rfl, ?_, rfl, ?_, rfl, rfl⟩
   · cases b <;> rfl
   · cases b <;> rfl
+
+/-- **`range_sum`** is the number of indices the MOC covers (`N` = any bound of the domain). -/
+theorem rangeSum_counts (m : List Rng) (hm : Canon m) (N : Nat) (hN : ∀ r ∈ m, r.2 ≤ N) :
+    (List.range N).countP (fun y => decide (mem y m)) = rangeSum m := by
+  have := rangeSum_counts_from m 0 N hm hN (Nat.zero_le _)
+  unfold coveredIn at this
+  rw [List.range_eq_range']
+  simpa using this
+
+/-- **Covered fraction of a range / cell**: the pair `(num, den)` handed to the final `f64` division is a
+    function of the number `c` of covered indices of the query `x` only: `(0,1)` — the literal `0.0` — iff
+    `c = 0`; `(1,1)` — the literal `1.0` — iff `c = |x|`; otherwise `c / |x|`, both shifted alike when `|x|`
+    does not fit in 52 bits.  (Quick rejection, binary-search start index and the accumulation loop are all
+    part of the modelled function.) -/
+theorem rangeFraction_sem (m : List Rng) (hm : Canon m) (x : Rng) (hx : x.1 < x.2) :
+    rangeFractionPair m x =
+      (let c := (List.range' x.1 (x.2 - x.1)).countP (fun y => decide (mem y m))
+       let tot := x.2 - x.1
+       if c = 0 then (0, 1)
+       else if c = tot then (1, 1)
+       else if tot >>> 52 > 0 then (c >>> bitLen (tot >>> 52), tot >>> bitLen (tot >>> 52))
+       else (c, tot)) :=
+  rangeFractionPair_spec m hm x hx
+
+/-- **Cell count at maximum depth**: when every bound is a multiple of the cell size `2^shift` (the MOC is
+    valid at that depth), cell count × cell size = `range_sum` = number of covered indices. -/
+theorem cellCount_sem (shift : Nat) (m : List Rng)
+    (ha : ∀ r ∈ m, r.1 ≤ r.2 ∧ r.1 % 2 ^ shift = 0 ∧ r.2 % 2 ^ shift = 0) :
+    nDepthMaxCells shift m * 2 ^ shift = rangeSum m := by
+  unfold nDepthMaxCells
+  rw [Nat.shiftRight_eq_div_pow]
+  apply Nat.div_mul_cancel
+  induction m with
+  | nil => simp [rangeSum]
+  | cons r t ih =>
+    simp only [rangeSum]
+    have h := ha r List.mem_cons_self
+    apply Nat.dvd_add
+    · exact Nat.dvd_sub (Nat.dvd_of_mod_eq_zero h.2.2) (Nat.dvd_of_mod_eq_zero h.2.1)
+    · exact ih (fun q hq => ha q (List.mem_cons_of_mem _ hq))
+
+/-- **Coverage percentage**: the pair divided is (covered indices, domain size), both shifted alike on
+    index types wider than 52 bits. -/
+theorem coverage_sem (w ub : Nat) (m : List Rng) :
+    coveragePair w ub m = if w > 52 then (rangeSum m >>> (w - 52), ub >>> (w - 52)) else (rangeSum m, ub) := rfl
 
 /-! Non-vacuity -/
 example : Canon [(2, 4), (8, 12)] := by decide
